@@ -52,7 +52,7 @@ CLAIMED = {
          "DESIGN.md §6 C16", "three genuine findings (own-delete echo, SUBACK/UNSUBACK before the snapshot is persisted) are listed as known in known_findings.txt; storage is a simulated etcd-like store."),
  "C17": ("deterministic simulation: real LimitListener+Semaphore under a real http.Server, the whole real httpserver runtime reconfigured through its event channel, and the real MQTT Broker, all on the simulated network with concurrent connects/closes/resets, SetMaxConnection sequences and aborted handshakes; open-connection counting oracle evaluated at every quiescent instant",
          "Seeded search over client populations x connect/idle/close/reset patterns x cap changes (grow, shrink below usage, back-to-back) x interleavings; open <= cap whenever no adjustment is pending, no accept at or above an applied cap, no established connection dropped by a shrink, released capacity is reusable (final phase admits exactly cap fresh connections), MQTT connects beyond the cap are refused with server-unavailable.",
-         "DESIGN.md §6 C17", "a takeover of a connected id at the cap is accepted both ways (statement silent)."),
+         "DESIGN.md §6 C17", "a takeover of a connected id at the cap is accepted both ways (statement silent); sub-harness C17L (run as part of this check) drives LimitListener+Semaphore directly, without net/http, with gates inside Close and concurrent closers."),
  "C18": ("deterministic simulation: 1-3 simulated cluster members, each the real cluster code (lease, concurrency.Session/Mutex through pkg/cluster/mutex.go) with its own real etcd clientv3 over gRPC on the simulated network against simetcd, plus a real api.Server per member (chi router, middlewares, object handlers) driven concurrently; critical-section overlap counter, version/fold oracle and porcupine linearizability check (map+counter model) over histories stamped with the simulator's event sequence numbers",
          "Seeded search over contention patterns (goroutines x members x hold times) x request time-outs below/above RPC latency x faults (slow request applied after the client gave up, slow reply, refused RPC, reply lost after apply, server stop/start) x concurrent create/update/delete/get/list mixes on overlapping names; holders <= 1 at every step, a failed acquisition leaves the lock free (liveness probe once faults stop), successful mutations carry distinct gap-free versions, 409/400/404 change nothing, final listing = fold in version order, history linearizable (porcupine; inconclusive is never a violation).",
          "DESIGN.md §6 C18", "simetcd is a single linearizable store (raft, multi-node etcd and lease expiry while holding are out of scope); three genuine findings about requests applied after the caller gave up are listed as known in known_findings.txt."),
